@@ -50,7 +50,7 @@ def handleObj (tree : Obj) (impl : String) : String × String :=
         let wantTree := readBack sorted
         let c1 : List String :=
           (if hasBadName NameAscii tree then ["nonascii"] else []) ++
-          (if hasRefLike wantTree then ["reflike"] else [])
+          []
         -- no defect class is left on the independent-reader side: a T2 failure is never explained
         let c2 : List String := []
         let explained := (t1 || !c1.isEmpty) && (t2 || !c2.isEmpty) && model == impl
